@@ -177,6 +177,7 @@ func runTriePass(r *h.Run, phases []phase, oracle trieOracle, accept func(c *h.C
 					return true
 				}
 				if v := evalTrieCase(w, c, u, oracle, true); v != nil {
+					v = shrinkTrieCase(w, c, u, oracle, v)
 					v.Unit = w.Unit()
 					w.Report(*v)
 					return false
@@ -185,6 +186,48 @@ func runTriePass(r *h.Run, phases []phase, oracle trieOracle, accept func(c *h.C
 			})
 		})
 	}
+}
+
+// shrinkTrieCase minimises a violating case: keys (with their values) are
+// dropped one at a time while the same oracle still reports the same kind of
+// violation on the same instance kind.  The result is still a real failing
+// input of the implementation; at most 300 re-evaluations.
+func shrinkTrieCase(w *h.Worker, c *h.Case, u *inputSpec, oracle trieOracle, v *h.Viol) *h.Viol {
+	tj, ok := v.Case.(trieCaseJSON)
+	if !ok || len(c.Keys) <= 1 {
+		return v
+	}
+	cur := *c
+	best := v
+	budget := 300
+	uu := *u
+	uu.insts = []string{tj.Inst}
+	for changed := true; changed && budget > 0; {
+		changed = false
+		for i := len(cur.Keys) - 1; i >= 0 && budget > 0; i-- {
+			if len(cur.Keys) <= 1 {
+				break
+			}
+			cand := cur
+			cand.Keys = append(append([]string{}, cur.Keys[:i]...), cur.Keys[i+1:]...)
+			if cur.ValIDs != nil {
+				cand.ValIDs = append(append([]int{}, cur.ValIDs[:i]...), cur.ValIDs[i+1:]...)
+			}
+			sc := &h.Scaffolded{Name: u.sc.Name + "(shrunk)", Keys: cand.Keys, IsVar: make([]bool, len(cand.Keys)), Lift: u.sc.Lift}
+			uu.sc = sc
+			budget--
+			nv := evalTrieCase(w, &cand, &uu, oracle, false)
+			if nv != nil && nv.Sig == v.Sig {
+				cur = cand
+				best = nv
+				changed = true
+			}
+		}
+	}
+	if best != v {
+		best.Msg += fmt.Sprintf(" (minimised from %d keys)", len(c.Keys))
+	}
+	return best
 }
 
 // evalTrieCase builds one case, walks its instances and applies the oracle.
